@@ -38,6 +38,7 @@ pub fn child_main(args: &[String]) -> i32 {
         Some("c03") => c03::child(&args[1..]),
         Some("busyrecv") => c05::child_busy_recv(&args[1..]),
         Some("fdcycles") => c16::child_fd_cycles(&args[1..]),
+        Some("acceptfail") => c18::child_accept_fail(&args[1..]),
         _ => {
             eprintln!("unknown child kind");
             2
